@@ -17,8 +17,9 @@ impl HasKey<Public> for V3 {
     type Key = PublicKey;
 
     fn decode(bytes: &[u8]) -> Result<PublicKey, PasetoError> {
-        // k3.public is the 49-byte compressed point only
-        if bytes.len() != 49 {
+        // k3.public is the 49-byte compressed point only (tag 0x02 or 0x03); the sec1
+        // decoder would also take the 49-byte x-only "compact" form (tag 0x05)
+        if bytes.len() != 49 || !matches!(bytes[0], 0x02 | 0x03) {
             return Err(PasetoError::InvalidKey);
         }
         p384::ecdsa::VerifyingKey::from_sec1_bytes(bytes)
